@@ -15,12 +15,9 @@ theorem frame_kinds_exhaustive (k : Nat) :
       k % (frameMask + 1) = frameCatch) ∧
     [frameFunction, frameFunp, frameFake, frameCatch].Nodup := by
   refine ⟨?_, by decide⟩
-  have h : k % (frameMask + 1) < 4 := Nat.mod_lt _ (by decide)
-  have e1 : frameFunction = 0 := rfl
-  have e2 : frameFunp = 1 := rfl
-  have e3 : frameCatch = 2 := rfl
-  have e4 : frameFake = 3 := rfl
-  omega
+  -- robust against a renumbering of the FRAME_* constants: decided over the residues, whatever their values
+  have hall : ∀ j, j < frameMask + 1 → (j = frameFunction ∨ j = frameFunp ∨ j = frameFake ∨ j = frameCatch) := by decide
+  exact hall _ (Nat.mod_lt _ (by decide))
 
 theorem dtHead_isSome (w : World) (e : CsEntry) (r : Regs) : ∃ h, dtHead w e r = some h := by
   unfold dtHead
@@ -143,10 +140,6 @@ theorem dump_trace_args_lines : ∀ (fs : List (Nat × Int × Int)) (st : Int ×
   | [], _ => rfl
   | (kind, na, nl) :: rest, (pa, pl) => by
     have hk := (frame_kinds_exhaustive kind).1
-    have e1 : frameFunction = 0 := rfl
-    have e2 : frameFunp = 1 := rfl
-    have e3 : frameCatch = 2 := rfl
-    have e4 : frameFake = 3 := rfl
     rcases hk with h | h | h | h
     · simp only [dtaGo, h, List.map_cons, true_or, if_true]
       rw [dump_trace_args_lines rest]
@@ -181,7 +174,8 @@ theorem dump_trace_ret_heart_beat (w : World) (idx : Nat) (hbProg hbOb : String)
 last; no table is known for these programs, so the location is `?` -/
 example :
     let w : World := { fns := [("m.c", ["set_oid", "f1", "go"])] }
-    let m : Machine := { cs := [⟨0, 2, "-", "-", -1⟩, ⟨2, 0, "m.c", "m", 7⟩, ⟨1, 0, "m.c", "m", 9⟩, ⟨0, 1, "m.c", "m", 30⟩],
+    let m : Machine := { cs := [⟨frameFunction, 2, "-", "-", -1⟩, ⟨frameCatch, 0, "m.c", "m", 7⟩, ⟨frameFunp, 0, "m.c", "m", 9⟩,
+                                  ⟨frameFunction, 1, "m.c", "m", 30⟩],
                          cur := ⟨"m.c", "m", 44⟩ }
     dumpTrace w m = ["go()~at~?,~in~program~/m.c~(object~m)", "(catch)~at~?,~in~program~/m.c~(object~m)",
                      "(function)~at~?,~in~program~/m.c~(object~m)", "f1()~at~?,~in~program~/m.c~(object~m)"] ∧
